@@ -63,6 +63,15 @@ CompactionRow(r) ==
       N == IF d = r.del THEN {} ELSE {<<"compactLogsWithTrailing", "operator", r>>}
   IN Judge(V, N)
 
+\* C19: what LogCache returned (real) against what the wrapped store alone returns (alone), per edge of
+\* the LogCache.tla state graph; `gets` is the model's prediction
+LogCacheRow(r) ==
+  LET V == (IF r.real = r.alone THEN {} ELSE {<<"C19", "GetLogDiffersFromBackend", r>>})
+           \cup (IF r.first[1] = r.first[2] /\ r.last[1] = r.last[2] THEN {} ELSE {<<"C19", "FirstLastDiffersFromBackend", r>>})
+           \cup (IF r.errc = r.errb THEN {} ELSE {<<"C19", "ErrorNotPropagated", r>>})
+      N == IF r.real = r.gets THEN {} ELSE {<<"LogCache", "model", r>>}
+  IN Judge(V, N)
+
 Init == l = 1 /\ nv = 0 /\ nn = 0
 Next == /\ l <= Len(Rows) + 1
         /\ l' = l + 1
@@ -71,5 +80,6 @@ Next == /\ l <= Len(Rows) + 1
            ELSE CASE Kind = "commitment"    -> CommitmentRow(Rows[l])
                   [] Kind = "configuration" -> ConfigurationRow(Rows[l])
                   [] Kind = "compaction"    -> CompactionRow(Rows[l])
+                  [] Kind = "logcache"      -> LogCacheRow(Rows[l])
 Spec == Init /\ [][Next]_vars
 =============================================================================
